@@ -348,6 +348,18 @@ def _plot_classes(ctx, plots, knots, H, W):
     return out
 
 
+def _describe(kind, plot):
+    bits = []
+    if kind != "list":
+        bits.append("scan directions given as %s" % kind)
+    pk = _pre_kwargs(plot)
+    if pk:
+        bits.append("preprocess(%s)" % ", ".join("%s=%s" % kv for kv in sorted(pk.items())))
+    for b in (plot or {}).get("between", []):
+        bits.append("plot_%s%s()" % (b, "" if b == "convergence" else "_images"))
+    return " [%s]" % "; ".join(bits) if bits else ""
+
+
 def _close_figs():
     import sys
 
@@ -409,7 +421,7 @@ def _check_stack(ctx, case):
     _between_plots(ctx, case, dc, plot)
     metrics = _new_metrics()
     warped0, weights0, knots0 = _judge_initial_geometry(
-        ctx, case, dc, images, angles, R, C, k, sigma, case["pad"], up, metrics, tol_coord=_tol_coord(kind)
+        ctx, case, dc, images, angles, R, C, k, sigma, case["pad"], up, metrics, stage=_describe(kind, plot), tol_coord=_tol_coord(kind)
     )
     for c in _plot_classes(ctx, [plot], knots0, warped0.shape[1], warped0.shape[2]):
         ctx.count(c)
@@ -502,7 +514,7 @@ def _check_history(ctx, case):
         dc = _pre(DriftCorrection.from_data([im.copy() for im in images], _angle_container(kind, cur["angles"])), plot0)
     _between_plots(ctx, case, dc, plot0, " [after first preprocess]")
     _w, _c, knots_init = _judge_initial_geometry(
-        ctx, case, dc, images, cur["angles"], R, C, cur["knots"], cur["sigma"], cur["pad"], up, metrics, stage=" [first preprocess]", tol_coord=tol_coord
+        ctx, case, dc, images, cur["angles"], R, C, cur["knots"], cur["sigma"], cur["pad"], up, metrics, stage=" [first preprocess]" + _describe(kind, plot0), tol_coord=tol_coord
     )
     plot_cls = _plot_classes(ctx, [plot0] + [r.get("plot") for r in case["rounds"]], knots_init, _w.shape[1], _w.shape[2])
 
@@ -557,7 +569,7 @@ def _check_history(ctx, case):
             ri + 2,
             "no alignment" if al is None else "align_%s moved the knots %.3g px" % (al["op"], moved),
             "same settings" if not ch else "changed " + ",".join(sorted(ch)),
-        )
+        ) + _describe(kind, plot)
         with ctx.sut(case, "preprocess() again" + stage):
             _pre(dc, plot)
         _between_plots(ctx, case, dc, plot, stage)
